@@ -19,6 +19,7 @@ pub fn messages(seed: u64, thorough: bool) -> Vec<(String, Vec<u8>)> {
     }
     v.push(("starts-with-prefix".into(), b"\x19Ethereum Signed Message:\n5hello".to_vec()));
     v.push(("starts-with-length".into(), b"12hello world!".to_vec()));
+    for core in [b"hello".as_slice(), b"\x00\x01\xfe\xff", b""] { for (n, m) in explore::affix_classes(core) { v.push((format!("affix-{n}"), m)); } }
     v.push(("newline".into(), b"\n".to_vec())); v.push(("crlf-tail".into(), b"hello\r\n".to_vec()));
     v
 }
